@@ -819,6 +819,12 @@ func (c *Client) Do(ctx context.Context, q Query) (err error) {
 			// next look at the context - unless it is blocked writing to a
 			// server that no longer reads. Give it a moment, then give up the
 			// connection: it cannot be left at a packet boundary.
+			select {
+			case <-sent:
+				return nil
+			case <-ctx.Done():
+				// The exception is on record as the error of the call.
+			}
 			t := time.NewTimer(time.Second)
 			defer t.Stop()
 			select {
@@ -867,7 +873,7 @@ func (c *Client) Do(ctx context.Context, q Query) (err error) {
 				c.writer = proto.NewWriter(c.conn, new(proto.Buffer))
 			}
 		}
-		if ctxErr := parentCtx.Err(); ctxErr != nil && !errors.Is(err, ctxErr) {
+		if ctxErr := contextErr(parentCtx); ctxErr != nil && !errors.Is(err, ctxErr) {
 			// E.g. a write blocked until the deadline copied from the context
 			// fails with an i/o timeout. Propagate the context error as well
 			// to allow errors.Is(err, context.DeadlineExceeded) assertions.
